@@ -179,8 +179,69 @@ def judge(events):
     return verdicts, res
 
 
-def kf_site(v, f):
-    return False
+OPTION_SETS = [
+    {"DO_BALANCED_CC": False}, {"DO_AREA_TARGETING": True}, {"DO_BALANCED_CC": False, "DO_AREA_TARGETING": True},
+    {"DO_VERTICAL_GCC": True}, {"DO_ASSITED_HT": True}, {"DO_VERTICAL_GCC": True, "DO_ASSITED_HT": True, "DO_AREA_TARGETING": True},
+    {"DO_EXERGY_TARGETING": True}, {"DO_DIRECT_SITE_TARGETING": False},
+    {"DO_DIRECT_OPERATION_TARGETING": True}, {"DO_INDIRECT_PROCESS_TARGETING": True},
+    {"DO_DIRECT_OPERATION_TARGETING": True, "DO_INDIRECT_PROCESS_TARGETING": True},
+    {"DT_CONT": 0.0}, {"DT_PHASE_CHANGE": 0.0}, {"HTC": 2.5, "UTILITY_PRICE": 0.0},
+]
+
+
+def drive_options(args):
+    """C14: every wired boolean option (and a few combinations / numeric options) on a problem: total, well-formed, repeatable."""
+    idx, case, opts = args
+    fails = []
+    try:
+        req = request(case["S"], case["z"], case["ladder"], EMB_BASE)
+        req["options"].update(opts)
+        out, mz = _OP["service"](req, project_name="Site", is_return_full_results=True)
+        js = out.model_dump_json()
+        back = json.loads(js)
+        type(out).model_validate(back)
+        def finite(o):
+            if isinstance(o, float):
+                return math.isfinite(o)
+            if isinstance(o, dict):
+                return all(finite(v) for v in o.values())
+            if isinstance(o, list):
+                return all(finite(v) for v in o)
+            return True
+        if not finite(back):
+            fails.append("C14.only_finite_numbers")
+        names = [t.name for t in out.targets]
+        if len(names) != len(set(names)):
+            fails.append("C14.record_names_unique")
+        def walk(zn):
+            yield zn
+            for sz in zn.subzones.values():
+                yield from walk(sz)
+        kinds = ("Site", "Process Zone") + (("Unit Operation",) if opts.get("DO_DIRECT_OPERATION_TARGETING") else ())
+        zs = [zn for zn in walk(mz) if zn.identifier in kinds]
+        if sum(1 for n in names if n.endswith("/Direct Integration")) != len(zs):
+            fails.append("C14.one_DI_record_per_zone")
+        req2 = request(case["S"], case["z"], case["ladder"], EMB_BASE); req2["options"].update(opts)
+        if _OP["service"](req2, project_name="Site").model_dump_json() != js:
+            fails.append("C14.repeat_call_identical")
+    except Exception as e:
+        fails.append("C14.service_raises")
+        return dict(idx=idx, opts=opts, fails=fails, exc=repr(e)[:200])
+    return dict(idx=idx, opts=opts, fails=fails)
+
+
+def kf_indirect(v, f):
+    return bool(v.detail.get("options", {}).get("DO_INDIRECT_PROCESS_TARGETING")) and v.clause == "C14.service_raises"
+
+
+def kf_area_zero_dt(v, f):
+    """area targeting where a stream has a zero contribution: the driving force at the pinch is 0 and the log mean is refused"""
+    return (bool(v.detail.get("options", {}).get("DO_AREA_TARGETING")) and v.clause == "C14.service_raises"
+            and "Invalid temperature differences" in (v.detail.get("exc") or "") and any(s_["dtc"] == 0 for s_ in v.case["S"]))
+
+
+def kf_opzones(v, f):
+    return bool(v.detail.get("options", {}).get("DO_DIRECT_OPERATION_TARGETING")) and v.clause in ("C14.record_names_unique", "C14.one_DI_record_per_zone")
 
 
 def check(prop, tier, run: Run, replay_case=None):
@@ -228,6 +289,21 @@ def check(prop, tier, run: Run, replay_case=None):
                 nontriv.add(json.dumps([ev["S"], ev["z"], ev["lo"]]))
         run.cov["samples"] += [{"config": name, "streams": c["S"], "zones": c["z"], "ladder": c["ladder"],
                                 "descriptions": ["base"] + [v["g"] for v in c["variants"]]} for c in cases[len(cases) // 2:][:2]]
+    if prop == "C14":
+        run.register_matcher("kf_indirect", kf_indirect)
+        run.register_matcher("kf_opzones", kf_opzones)
+        run.register_matcher("kf_area_zero_dt", kf_area_zero_dt)
+        base_cases = gen_cases("quick2").cases
+        k = max(1, len(base_cases) // (12 if tier == "quick" else 150))
+        sel = base_cases[seed() % k:: k]
+        jobs = [(i, c, o) for i, c in enumerate(sel) for o in OPTION_SETS]
+        with Pool(16, initializer=_init) as pool:
+            ores = pool.map(drive_options, jobs, chunksize=4)
+        for r in ores:
+            run.cov["evaluations"] += 1
+            for c in r["fails"]:
+                run.violation(c, sel[r["idx"]], dict(options=r["opts"], exc=r.get("exc")), leg="T")
+        run.notes["options_sweep"] = dict(problems=len(sel), option_sets=len(OPTION_SETS), runs=len(ores))
     run.cov["distinct_nontrivial"] = len(nontriv)
     run.cov["rule"] = ("every site problem of <= MaxStreams lattice streams x zone assignment x request ladder enumerated by TLC (SiteGen), each run "
                        "through the real service in every equivalent description; one trace event per problem, judged by TLC (TraceSite); "
